@@ -19,6 +19,20 @@ OPERANDS = ["", "#", "#$", "$", "%", "'", ",", ",X", "X", "[", "]", "[]", "[,]",
             "S,U", "$,X", "%,X", "',X"]
 
 
+# EQU symbols that name other symbols: chains, a self reference, cycles of two and three -- each used in the operand positions
+ALIAS_DEFS = {
+    "chain": ["FIRST   EQU SECOND\n", "SECOND  EQU $10\n"],
+    "chain3": ["FIRST   EQU SECOND\n", "SECOND  EQU THIRD\n", "THIRD   EQU $1234\n"],
+    "self": ["ALIAS   EQU ALIAS\n"],
+    "pair": ["FIRST   EQU SECOND\n", "SECOND  EQU FIRST\n"],
+    "triple": ["FIRST   EQU SECOND\n", "SECOND  EQU THIRD\n", "THIRD   EQU FIRST\n"],
+    "to-label": ["FIRST   EQU START\n"],
+    "to-undefined": ["FIRST   EQU NOWHERE\n"],
+}
+ALIAS_USES = [" LDA %s\n", " STA %s\n", " LDX #%s\n", " LDA #%s\n", " JMP %s\n", " LDA %s,X\n", " LDA [%s]\n", " LDA %s+1\n", " BRA %s\n",
+              " LEAX %s,PCR\n", " FDB %s\n", " FCB %s\n"]
+
+
 class AsmText:
     name = "asm_text"
     props = ("C13",)
@@ -30,10 +44,27 @@ class AsmText:
                 continue          # quick: no label, a plain label, a label that starts with a digit; thorough: all six label fields
             for mn in MNEMONICS:
                 out.append({"id": "text/%d/%s" % (li, mn), "label": lb, "mn": mn, "bounded": "label field %r, mnemonic %s, %d operand texts" % (lb, mn, len(OPERANDS))})
+        for k in ALIAS_DEFS:
+            out.append({"id": "alias/%s" % k, "alias": k, "bounded": "EQU alias shape %s in %d operand positions" % (k, len(ALIAS_USES))})
         return out
+
+    def run_alias(self, env, cell, native):
+        k = cell["alias"]
+        name = "ALIAS" if k == "self" else "FIRST"
+        for u, use in enumerate(ALIAS_USES):
+            for where in ("before", "after"):
+                lines = [" ORG $1000\n", "START NOP\n"] + (ALIAS_DEFS[k] if where == "before" else []) + [use % name, " RTS\n"] + \
+                    (ALIAS_DEFS[k] if where == "after" else [])
+                run = assemble(env, lines, want_listing=True)
+                tag = "%d%s" % (u, where[0])
+                sig = lambda what, run=run, tag=tag: (lambda: "alias/%s:%s:%s:%s@%s" % (k, tag, what, run.exc_class, run.exc_phase)) if native else None
+                env.ensure("C13:terminates#%s" % tag, run.status != "hang", ("C13",), sig("hang"))
+                env.ensure("C13:no-internal-error#%s" % tag, run.status != "escape", ("C13",), sig("escape"))
 
     def run(self, env, cell):
         native = env.mode == "native"
+        if "alias" in cell:
+            return self.run_alias(env, cell, native)
         lb, mn = cell["label"], cell["mn"]
         for k, op in enumerate(OPERANDS):
             line = "%s %s %s\n" % (lb, mn, op)
